@@ -2,7 +2,7 @@
 # usage: run_all.sh quick|thorough [ids...]   -- sequential run of the registered checks, one summary line each
 TIER=$1; shift
 IDS=${@:-C01 C02 C03 C04 C05 C06 C07 C08 C09 C10 C11 C13 C14 C15 C16 C17 C18 C19 C20}
-cd /verif
+cd "$(dirname "$0")/.."
 for id in $IDS; do
   s=$(date +%s)
   ./check $id --tier $TIER > /tmp/run_${TIER}_$id.log 2>&1; rc=$?
